@@ -77,16 +77,21 @@ InitRegs(v) ==
             [] v = 3 -> (IF r \in {5, 10} THEN 0 ELSE 2000 + 41 * r)
             [] OTHER -> 7 * r + v]
 
-Frame0(regs) == [snap |-> regs, retpc |-> 0, callnode |-> 0, dead |-> [r \in Regs |-> FALSE], entry |-> 1]
+Frame0(regs) == [snap |-> regs, retpc |-> 0, callnode |-> 0, dead |-> [r \in Regs |-> FALSE], entry |-> 1, written |-> {}]
 
 MInit(v, choice, fuel) ==
   [pc |-> 1, reg |-> InitRegs(v), mem |-> <<>>, csrw |-> <<>>, frames |-> << Frame0(InitRegs(v)) >>,
    dead |-> [r \in Regs |-> FALSE], last |-> 0, halted |-> FALSE, why |-> "", viol |-> <<>>,
-   fuel |-> fuel, choice |-> choice, steps |-> 0, c01 |-> FALSE]
+   fuel |-> fuel, choice |-> choice, steps |-> 0, c01 |-> FALSE, written |-> {}, det |-> <<>>]
 
 Top(s) == s.frames[Len(s.frames)]
 Halt(s, why) == [s EXCEPT !.halted = TRUE, !.why = why]
 Flag(s, key) == [s EXCEPT !.viol = IF \E i \in 1..Len(@) : @[i] = key THEN @ ELSE Append(@, key)]
+\* as Flag, and remember where (node index, step, what) for the witness report (not part of the key)
+FlagAt(s, key, what) ==
+  [Flag(s, key) EXCEPT !.det = IF \E i \in 1..Len(s.viol) : s.viol[i] = key THEN @
+                                ELSE Append(@, key \o " node=" \o ToString(s.pc) \o " step=" \o ToString(s.steps)
+                                               \o " " \o ToString(what))]
 
 \* ------------------------------------------------------------- C01: claims
 \* value of an abstract value in the current frame, or "skip" when the kind is not judged
@@ -126,15 +131,25 @@ JumpsToFunctionEntry(cfg) ==
   \E i \in 1..NN(cfg) :
      LET n == cfg.nodes[i].node IN
      Kind(n) \in {"jump", "branch"} /\ \E f \in 1..Len(cfg.funcs) : cfg.funcs[f].label = n.lab
+\* an ecall before which the value analysis has no constant for a7 (its signature is unknown to it)
+EcallNumberUnknown(cfg, i) ==
+  /\ Kind(cfg.nodes[i].node) = "ecall"
+  /\ ~\E j \in 1..Len(cfg.nodes[i].rin) : cfg.nodes[i].rin[j].reg = 17 /\ cfg.nodes[i].rin[j].v.t = "c"
 LiveBefore(cfg, s, reads) ==
   LET li == SeqSet(cfg.nodes[s.pc].live_in)
       d1 == [r \in Regs |-> s.dead[r] \/ (r # 0 /\ r \notin li)]
       badreads == { r \in reads : r # 0 /\ d1[r] }
       s1 == [s EXCEPT !.dead = d1]
   IN IF badreads = {} THEN s1
-     ELSE Flag(s1, "C02:dynamic:read-of-register-reported-dead:"
-                   \o (IF JumpsToFunctionEntry(cfg) THEN "program-jumps-to-a-function-entry" ELSE "ordinary-program"))
-Define(s, regs) == [s EXCEPT !.dead = [r \in Regs |-> IF r \in regs THEN FALSE ELSE @[r]]]
+     ELSE FlagAt(s1, "C02:dynamic:read-of-register-reported-dead:"
+                   \o (IF EcallNumberUnknown(cfg, s.pc) /\ badreads \subseteq ArgRegs
+                          THEN "argument-of-an-ecall-whose-number-the-analysis-does-not-know"
+                       ELSE IF JumpsToFunctionEntry(cfg) THEN "program-jumps-to-a-function-entry"
+                       ELSE "ordinary-program"),
+                 badreads)
+\* `written` = registers written by instructions of the current frame (since it was entered)
+Define(s, regs) == [s EXCEPT !.dead = [r \in Regs |-> IF r \in regs THEN FALSE ELSE @[r]],
+                             !.written = @ \cup (regs \cap Regs)]
 
 \* ------------------------------------------------------------- C03: edge monitor
 RECURSIVE SkipPseudo(_, _, _)
@@ -146,7 +161,7 @@ SkipPseudo(cfg, set, n) ==      \* replace pseudo nodes by their successors (n b
 EdgeCheck(cfg, s, from, to) ==
   IF from = 0 THEN s
   ELSE IF to \in SkipPseudo(cfg, SeqSet(cfg.nodes[from].nexts), 3) THEN s
-  ELSE Flag(s, "C03:dynamic:executed-transfer-is-not-an-edge:" \o Kind(cfg.nodes[from].node))
+  ELSE FlagAt(s, "C03:dynamic:executed-transfer-is-not-an-edge:" \o Kind(cfg.nodes[from].node), <<from, to>>)
 
 \* ------------------------------------------------------------- one step
 IsPseudoNode(x) == x.node.k \in {"FuncEntry", "ProgramEntry"}
@@ -197,13 +212,15 @@ Step(cfg, unreach, s) ==
          LET tgt == Target(cfg, n.lab)
              regs2 == SetR(sL, 1, CodeAddr(here + 1))
              \* caller's flags are kept in the frame; the callee starts with the argument flags only
-             fr == [snap |-> regs2, retpc |-> NextPc(cfg, here), callnode |-> here, dead |-> sL.dead, entry |-> tgt]
+             fr == [snap |-> regs2, retpc |-> NextPc(cfg, here), callnode |-> here, dead |-> sL.dead, entry |-> tgt,
+                    written |-> sL.written]
              sOut == CheckClaimsOut(cfg, [sL EXCEPT !.reg = regs2], here)   \* rout of a call: judged right after the jump
          IN IF tgt = 0 \/ cfg.nodes[tgt].node.k # "FuncEntry" THEN Halt(sL, "call-target-is-not-a-function")
             ELSE IF Len(sL.frames) >= 6 THEN Halt(sL, "recursion-depth")
             ELSE [sL EXCEPT !.reg = regs2, !.pc = tgt, !.frames = Append(@, fr), !.last = 0,
                             !.dead = [r \in Regs |-> IF r \in ArgRegs THEN sL.dead[r] ELSE FALSE],
-                            !.viol = sOut.viol, !.c01 = sOut.c01]
+                            !.written = {},
+                            !.viol = sOut.viol, !.c01 = sOut.c01, !.det = sOut.det]
     [] k \in {"ret", "merge"} ->      \* a merged return is still a return of the program
          IF n.op = "uret" THEN Halt(sL, "uret")
          ELSE IF Len(sL.frames) = 1 THEN Halt(done(sL), "return-from-main")
@@ -211,11 +228,14 @@ Step(cfg, unreach, s) ==
               IF sL.reg[1] # f.snap[1] THEN Halt(sL, "ra-not-restored")
               ELSE IF \E r \in SavedRegs \cup {2} : sL.reg[r] # f.snap[r] THEN Halt(done(sL), "callee-saved-not-restored")
               ELSE LET sR == done(sL)
-                       \* after the call: a0-a7 carry the callee's flags, temporaries and ra are
-                       \* (re)defined by the call, saved registers resume the caller's flags
-                       d2 == [r \in Regs |-> IF r \in ArgRegs THEN sR.dead[r]
-                                             ELSE IF r \in TempRegs \cup {1} THEN FALSE ELSE f.dead[r]]
+                       \* after the call: an argument register the callee wrote carries the callee's
+                       \* flag (a return value read by the caller is a read of the callee's definition);
+                       \* every other caller-saved register and ra are (re)defined by the call itself
+                       \* (clobbered, as the convention says); saved registers resume the caller's flags
+                       d2 == [r \in Regs |-> IF r \in ArgRegs /\ r \in sR.written THEN sR.dead[r]
+                                             ELSE IF r \in ArgRegs \cup TempRegs \cup {1} THEN FALSE ELSE f.dead[r]]
                        sB == [sR EXCEPT !.frames = SubSeq(@, 1, Len(@) - 1), !.pc = f.retpc, !.dead = d2,
+                                        !.written = f.written \cup ArgRegs \cup TempRegs \cup {1},
                                         !.last = f.callnode]
                    IN sB
     [] k = "ecall" ->
